@@ -187,7 +187,7 @@ func c09ConfigGen() *rapid.Generator[c09Config] {
 			{CandidateTypeHost, CandidateTypeServerReflexive, CandidateTypeRelay}, {CandidateTypeServerReflexive, CandidateTypeRelay},
 		}).Draw(t, "types")
 		c.StunMode = rapid.SampledFrom([]string{"now", "later", "later", "never"}).Draw(t, "stunMode")
-		c.TurnProto = rapid.SampledFrom([]string{"udp", "tcp"}).Draw(t, "turnProto")
+		c.TurnProto = rapid.SampledFrom([]string{"udp", "udp", "tcp", "tcp", "tls-handshake-fails"}).Draw(t, "turnProto")
 		c.TurnMode = rapid.SampledFrom([]string{"ok", "ok", "allocate-blocks", "allocate-blocks", "listen-error", "allocate-error", "factory-error", "relay-linklocal"}).Draw(t, "turnMode")
 		c.Mux = rapid.SampledFrom([]string{"", "", "udp", "tcp", "udp-srflx"}).Draw(t, "mux")
 		c.Rewrite = rapid.SampledFrom([]string{"", "", "srflx-mapped", "srflx-mapped-2", "srflx-mapped-unusable-first", "srflx-drop", "host-append", "host-dup", "relay-drop", "relay-append"}).Draw(t, "rewrite")
@@ -261,10 +261,16 @@ func newC09World(cfg c09Config, extra ...AgentOption) (*c09World, error) {
 		}
 		if hasType(cfg.Types, CandidateTypeRelay) {
 			proto := stun.ProtoTypeUDP
+			scheme := stun.SchemeTypeTURN
 			if cfg.TurnProto == "tcp" {
 				proto = stun.ProtoTypeTCP
 			}
-			urls = append(urls, &stun.URI{Scheme: stun.SchemeTypeTURN, Host: "198.51.100.2", Port: 3478, Proto: proto, Username: "u", Password: "p"})
+			if cfg.TurnProto == "tls-handshake-fails" {
+				// TURN over TLS/TCP against a server that does not speak TLS
+				proto, scheme = stun.ProtoTypeTCP, stun.SchemeTypeTURNS
+				w.fn.tcpServerSaysGarbage = true
+			}
+			urls = append(urls, &stun.URI{Scheme: scheme, Host: "198.51.100.2", Port: 3478, Proto: proto, Username: "u", Password: "p"})
 			if cfg.BadTurnURL {
 				urls = append(urls, &stun.URI{Scheme: stun.SchemeTypeTURN, Host: "198.51.100.3", Port: 3478, Proto: proto})
 			}
